@@ -59,7 +59,9 @@ CF_BT = ["u8", "u16", "u32"]
 CF_LARGE = [(16, 5, "u16", "100"), (16, 8, "u16", "100"), (32, 8, "u32", "100"), (64, 11, "u32", "100"),
             (24, 5, "u8", "110"), (24, 5, "u32", "001"), (24, 5, "u16", "100"), (40, 8, "u8", "111"), (40, 8, "u32", "100"),
             (40, 8, "u16", "010"), (16, 5, "u8", "011"), (16, 5, "u32", "110"), (12, 4, "u16", "101"), (32, 8, "u8", "000"),
-            (32, 8, "u8", "100"), (26, 6, "u8", "110"), (64, 11, "u16", "100"), (48, 8, "u16", "100")]   # 4-limb and 3-limb storage with subnormals
+            (32, 8, "u8", "100"), (26, 6, "u8", "110"), (64, 11, "u16", "100"), (48, 8, "u16", "100"),
+            # the same configuration on several block types (1, 2, 3, 4, 5 limbs): also compared across block types by C12
+            (40, 8, "u8", "100"), (40, 8, "u16", "100"), (33, 8, "u8", "100"), (33, 8, "u16", "100"), (33, 8, "u32", "100"), (32, 8, "u16", "100")]   # 4-limb and 3-limb storage with subnormals
 
 
 def cf_flags(es):
@@ -192,8 +194,8 @@ if "replay_jobs" in globals():
     def replay_jobs(prop, path, exes):
         return _rj(prop, path, exes) if prop in _OWNED else []
 
-XBT = [cfloat_streams("arith", 1, 1, all_bt_quick=True), cfloat_streams("order", 1, 1, all_bt_quick=True)]
-XBT_HARNESS = ["h_cfloat_u8", "h_cfloat_u16", "h_cfloat_u32"]
+XBT = [cfloat_streams("arith", 3000, 40000, all_bt_quick=True, shards=1), cfloat_streams("order", 1500, 20000, all_bt_quick=True, shards=1)]
+XBT_HARNESS = ["h_cfloat_u8", "h_cfloat_u16", "h_cfloat_u32", "h_cfloat_big"]
 
 C20_HARNESS = {"h_cfloat_big_san": dict(src="h_cfloat.cpp", flags=["-DUV_PART=0"] + SAN), "h_cfloat_u8_san": dict(src="h_cfloat.cpp", flags=["-DUV_PART=8"] + SAN)}
 C20_MAP = {"h_cfloat_big": "h_cfloat_big_san", "h_cfloat_u8": "h_cfloat_u8_san"}
